@@ -38,9 +38,9 @@ func jitter(seed int64) func(simnet.Link) {
 }
 
 func unitC20core(e common.Env, p *common.Part) {
-	p.Rule = "race-detector build; real Loud/Silent schemes with scripted backends on the simulated network in concurrent mode (one dispatcher goroutine per link, PRNG micro-delays of 20..150 us and yields); scenarios: staggered first calls (peers' traffic reaches a node before and while its first KeyGen/Sign sets up), duplicated transmissions, 2-3 sessions at once on different topics, SetStoredData followed by Sign from another goroutine, cancelled sessions followed by new ones, the synchronisation traffic of a finished key generation re-sent continuously from its origins while further key generations start (stale queries and announcements with valid tags reach a node before and while its Synchronize sets up); repeated because reports vary per run; distinct key = (scenario, repetition, delivery-order hash); non-trivial when >=2 dispatcher goroutines were active"
+	p.Rule = "race-detector build; real Loud/Silent schemes with scripted backends on the simulated network in concurrent mode (one dispatcher goroutine per link, PRNG micro-delays of 20..150 us and yields); scenarios: staggered first calls (peers' traffic reaches a node before and while its first KeyGen/Sign sets up), duplicated transmissions, 2-3 sessions at once on different topics, SetStoredData followed by Sign from another goroutine, cancelled sessions followed by new ones, four goroutines per node calling KeyGen and Sign on one scheme object with contexts that are over or end within microseconds, the synchronisation traffic of a finished key generation re-sent continuously from its origins while further key generations start (stale queries and announcements with valid tags reach a node before and while its Synchronize sets up); repeated because reports vary per run; distinct key = (scenario, repetition, delivery-order hash); non-trivial when >=2 dispatcher goroutines were active"
 	reps := e.Pick(12, 120)
-	scen := []string{"staggered-keygen-loud", "staggered-keygen-silent", "sign-concurrent-topics", "duplicates", "setdata-then-sign", "cancel-then-retry", "msgbox-with-ticking-clock", "stale-sync-flood-loud", "stale-sync-flood-silent"}
+	scen := []string{"staggered-keygen-loud", "staggered-keygen-silent", "sign-concurrent-topics", "duplicates", "setdata-then-sign", "cancel-then-retry", "msgbox-with-ticking-clock", "stale-sync-flood-loud", "stale-sync-flood-silent", "api-calls-from-several-goroutines"}
 	idx := 0
 	for r := 0; r < reps; r++ {
 		for _, sc := range scen {
@@ -221,6 +221,40 @@ func runC20core(sc string, rep int, rng *rand.Rand) (string, int) {
 		}
 		close(stop)
 		fw.Wait()
+	case "api-calls-from-several-goroutines":
+		// "several sessions may run at once" starts at the API: four goroutines per node call KeyGen and Sign with contexts that
+		// are over or end within microseconds, so that admissions, refusals and returns of different calls on ONE scheme object
+		// overlap; then an ordinary key generation
+		var aw sync.WaitGroup
+		for _, u := range ids {
+			c.Schemes[u].SetStoredData([]byte("share-of-x")) // once, before any call (the setter is not part of what may overlap)
+		}
+		for _, u := range ids[:2] {
+			for g := 0; g < 4; g++ {
+				u, g := u, g
+				aw.Add(1)
+				go func() {
+					defer aw.Done()
+					for k := 0; k < 150; k++ {
+						cx, cn := context.WithCancel(ctx)
+						if (k+g)%3 == 0 {
+							go func() { time.Sleep(time.Duration(20*((k+g)%7)) * time.Microsecond); cn() }()
+						} else {
+							cn()
+						}
+						if (k+g)%4 == 3 {
+							c.Schemes[u].Sign(cx, []byte("digest-0123456789abcdef0123456789"), fmt.Sprintf("api-%d-%d", g, k%3))
+						} else {
+							c.Schemes[u].KeyGen(cx, n, n-1)
+						}
+						cn()
+					}
+				}()
+			}
+		}
+		aw.Wait()
+		time.Sleep(2 * time.Millisecond)
+		keygen(ctx)
 	case "cancel-then-retry":
 		cx, cn := context.WithCancel(ctx)
 		cd := time.Duration(rng.Intn(3000)) * time.Microsecond
